@@ -9,6 +9,20 @@ from .core import (
 from .values import And_, CheckerError, Eq_, Implies_, Not_, Or_, SExc, SObj, SOpt, to_z3_bool, DictCell, ListCell
 
 
+class TraceUnavailable(Exception):
+    pass
+
+
+class NoTrace:
+    """stands for the event trace of a callee at a call site that uses the callee's contract: any look at
+    it aborts the evaluation of the clause (the clause is then not assumed)"""
+
+    def _no(self, *a, **k):
+        raise TraceUnavailable()
+
+    __iter__ = __len__ = __getitem__ = __bool__ = __contains__ = _no
+
+
 class Clause:
     def __init__(self, label, fn, props=(), when=None, lemmas=()):
         self.label, self.fn, self.props, self.when = label, fn, tuple(props), when
@@ -35,8 +49,26 @@ class Lemma:
 class Contract:
     def __init__(self, fq, arg_types=None, requires=(), ensures=(), raises=(), modifies=(), result=None,
                  effects=None, emits=None, loops=None, props=(), setup=None, trusted=False, pure=False,
-                 modular=True, notes="", pre_lemmas=(), guard_requires=False, raises_outside=()):
+                 modular=True, notes="", pre_lemmas=(), guard_requires=False, raises_outside=(), instance=None,
+                 cond_frames=(), call_effects=None):
         self.fq = fq
+        # several contracts ("instances") may exist for one function, each for a slice of the pre-state space
+        # (e.g. one per FSM step); the first registered / the one named `default_instance` is used at call sites
+        self.instance = instance
+        self.key = fq if instance is None else f"{fq}#{instance}"
+        # conditional frames: [(label, when(o), modifies)] -- under `when`, nothing outside `modifies` changes
+        self.cond_frames = list(cond_frames)
+        # effects a caller must account for when the call is replaced by this contract (default: `effects`)
+        self.call_effects = call_effects
+        self.inline_callees = set()
+        self.contract_callees = set()
+        self.check_pre_when_inlined = True
+        self.call_default = instance is None
+        self.no_call_summary = False
+        self.cost_hint = 1
+        # labels of `requires` that are global invariants/environment assumptions: assumed at entry, not
+        # re-proved at every internal call site (they are proved as postconditions of the public methods)
+        self.assumed_requires = {"DestInv", "SrcInv", "default_fault_table", "env"}
         self.arg_types = dict(arg_types or {})
         self.requires = list(requires)  # [(label, fn(o))]
         self.ensures = list(ensures)  # [Clause]
@@ -58,18 +90,26 @@ class Contract:
         self.guard_requires = guard_requires
         self.raises_outside = tuple(raises_outside)
 
+    def all_props(self):
+        ps = set(self.props)
+        for c in self.ensures:
+            ps |= set(c.props)
+        for rc in self.raises:
+            ps |= set(rc.props)
+        for sp in self.loops.values():
+            ps |= set(sp.props)
+        return ps
+
     # ------------------------------------------------------------------ used at call sites
     def modifies_list(self, o):
         m = self.modifies
         return list(m(o)) if callable(m) else list(m)
 
-    def apply_at_call(self, interp: Interp, fi, args, kwargs, node):
-        ctx = interp.ctx
+    def _bind(self, interp, fi, args, kwargs):
         a = fi.node.args
         params = [x.arg for x in a.posonlyargs + a.args]
         roots = dict(zip(params, args))
         roots.update(kwargs)
-        fr0 = None
         ndef = len(a.defaults)
         for i, p in enumerate(params):
             if p not in roots:
@@ -78,6 +118,21 @@ class Contract:
                     raise CheckerError(f"missing arg {p} in call of {fi.fq}")
                 from .core import Frame
                 roots[p] = interp.ev(a.defaults[di], Frame(fi, {}))
+        return roots
+
+    def oblige_pre_at_call(self, interp, fi, args, kwargs, node):
+        """the callee is inlined, but the caller must still establish its `requires` (non-invariant part)"""
+        roots = self._bind(interp, fi, args, kwargs)
+        o = Roots(roots)
+        for label, fn in self.requires:
+            if label in self.assumed_requires:
+                continue
+            interp.ctx.oblige(f"{_caller(interp)}::pre-of-callee::{fi.qualname}.{label}", fn(o), kind="pre-of-callee",
+                              line=getattr(node, "lineno", None), props=self.props)
+
+    def apply_at_call(self, interp: Interp, fi, args, kwargs, node):
+        ctx = interp.ctx
+        roots = self._bind(interp, fi, args, kwargs)
         line = getattr(node, "lineno", None)
         o = Roots(roots)
         if self.guard_requires:
@@ -111,7 +166,11 @@ class Contract:
                     obj, fld = interp.resolve_loc(roots, loc)
                     interp.havoc(obj, fld)
                 if rc.post is not None:
-                    ctx.assume(rc.post(oldr, Roots(roots)))
+                    try:
+                        ctx.assume(rc.post(oldr, Roots(roots, NoTrace(), interp)))
+                    except TraceUnavailable:
+                        pass
+                ctx.event("opaque_call", callee=fi.fq)
                 e = SExc(rc.exc, (), line=line)
                 e.origin = fi.qualname
                 raise RaiseSig(e)
@@ -122,14 +181,21 @@ class Contract:
         result = None
         if self.result is not None:
             result = interp.fresh_value(self.result, f"ret:{fi.node.name}!{next(ctx._n)}")
-        newr = Roots(roots)
+        newr = Roots(roots, NoTrace(), interp)
         if self.emits is not None:
             for pat in self.emits(oldr, newr, result):
                 materialize_event(interp, roots, pat)
+        else:
+            ctx.event("opaque_call", callee=fi.fq)
+        eff = self.call_effects if self.call_effects is not None else self.effects
+        for k in (eff or ()):
+            ctx.effect(k, f"via {fi.qualname}", line)
         for c in self.ensures:
-            ctx.assume(c.fn(oldr, newr, result))
-        if isinstance(result, SOpt):
-            pass
+            try:
+                f = c.fn(oldr, newr, result)
+            except TraceUnavailable:
+                continue  # clause speaks about the callee's event trace: not available to the caller
+            ctx.assume(f)
         return result
 
 
